@@ -125,11 +125,6 @@ func runBatchCase(t *testing.T, sc *BatchSc, qp func(x *batchExec) string) (x *b
 			r0 := ref.run()
 			live := *sc
 			live.DeadlineMs = int(r0.Finished/time.Millisecond) + 1 + sc.LiveSlackMs
-			if sc.C > 0 {
-				// with several workers the start order - and with it the virtual duration of a run
-				// with retry waits - may legitimately depend on the scheduler: stay clear of any ordering
-				live.DeadlineMs = 2*int(r0.Finished/time.Millisecond) + sc.budget()*sc.WaitMs*(sc.n()+1) + 1000
-			}
 			x = newBatchExec(&live)
 		} else {
 			x = newBatchExec(sc)
